@@ -21,6 +21,7 @@ import (
 	"fmt"
 	"io"
 	"math/rand"
+	"net/url"
 	"os"
 	"os/exec"
 	"path/filepath"
@@ -389,10 +390,20 @@ func implSoIndex(line string) string {
 	case "http": // the store's URL is scheme://host + directory + "/"
 		if i := strings.Index(store, "://"); i >= 0 {
 			rest := store[i+3:]
+			if q := strings.IndexAny(rest, "?#"); q >= 0 {
+				rest = rest[:q]
+			}
 			if j := strings.Index(rest, "/"); j >= 0 {
 				dir = strings.TrimSuffix(rest[j:], "/")
+				if u, err := url.PathUnescape(dir); err == nil {
+					dir = u
+				}
 				if dir == "" {
 					dir = "/"
+				}
+				// url.URL.String() puts a "/" in front of a relative path when there is a host
+				if up := string(unhx(a["upath"])); !strings.HasPrefix(up, "/") && strings.HasPrefix(dir, "/") && dir != "/" {
+					dir = dir[1:]
 				}
 			}
 		}
